@@ -1234,7 +1234,15 @@ impl Value {
         let new_fields = fields
             .iter()
             .map(|field| {
-                let value = match items.remove(&field.name) {
+                // A reader field matches the writer's field of the same name, or else one the
+                // reader field lists as an alias.
+                let written = items.remove(&field.name).or_else(|| {
+                    field
+                        .aliases
+                        .iter()
+                        .find_map(|alias| items.remove(alias))
+                });
+                let value = match written {
                     Some(value) => value,
                     None => match field.default {
                         Some(ref value) => match field.schema {
